@@ -283,3 +283,12 @@ func c19r5(r *R) {
 	r.Ob("C19.R5", "instances").Check(len(rows) >= 8, "expected >= 8 write-side precondition errors, found %d", len(rows))
 	checkTable(r, "C19.R5", "h2_frame_write_preconditions", rows, "write precondition")
 }
+
+func init() {
+	p := registry["C19"]
+	p.Rules = append(p.Rules, ruleDef{"C19.R7", func(r *R) {
+		forkSiblingRule(r, "C19.R7", "frame.go", "errors.go")
+		forkTablesRule(r, "C19.R7")
+	}})
+	wantRefs("C19")
+}
